@@ -77,5 +77,5 @@ def finalize(ctx, acc):
     missing = [k for k in need if not x.get(k)]
     if missing:
         acc.harness_error("vacuity: never exercised: %r" % missing)
-    if len(acc.outcomes) < (150 if acc.n > 5000 else 10):
+    if len(acc.outcomes) < (60 if acc.n > 5000 else 10):
         acc.harness_error("vacuity: only %d distinct string/class-usage observations over %d bodies" % (len(acc.outcomes), acc.n))
